@@ -1,6 +1,7 @@
 package protocol
 
 import (
+	"errors"
 	"fmt"
 
 	"github.com/fxamacker/cbor/v2"
@@ -95,9 +96,14 @@ func (m *Message) MarshalBinary() ([]byte, error) {
 }
 
 func (m *Message) UnmarshalBinary(data []byte) error {
-	deserialized := m.toMarshallable()
+	// decode into a fresh value: fields that are absent from data must not be inherited from the receiver
+	deserialized := new(marshallableMessage)
 	if err := cbor.Unmarshal(data, deserialized); err != nil {
 		return err
+	}
+	// every message names its sender and its protocol: data decoding to less (CBOR null, an empty map) is not a message
+	if deserialized.From == "" || deserialized.Protocol == "" {
+		return errors.New("message: missing sender or protocol")
 	}
 	m.SSID = deserialized.SSID
 	m.From = deserialized.From
